@@ -291,12 +291,18 @@ func main() {
 	// equivalent spellings of one address in one Casketfile: either refused as duplicates, or the routing is the same
 	// whichever of the two is declared first
 	for _, pair := range [][2]string{{"a.test:8080", "a.test:8080/"}, {"a.test:8080", "a.test:08080"}, {"a.test:8080", "A.TEST:8080"}, {"a.test:8080/p", "a.test:8080/p"},
-		{":8080", "0.0.0.0:8080"}, {"*.test:8080", "*.TEST:8080/"}, {"http://a.test:8080", "a.test:8080"}} {
+		{":8080", "0.0.0.0:8080"}, {"*.test:8080", "*.TEST:8080/"}, {"http://a.test:8080", "a.test:8080"}, {"http://a.test:8080", "https://a.test:8080"}} {
 		var outs [2]map[string]string
 		var errs [2]error
 		for o := 0; o < 2; o++ {
 			first, second := pair[o], pair[1-o]
-			cf := fmt.Sprintf("%s {\n\theader / X-Site s%d\n\tstatus 204 /\n}\n%s {\n\theader / X-Site s%d\n\tstatus 204 /\n}\n", first, o, second, 1-o)
+			tlsOff := func(a string) string { // (an https:// address without TLS is still the same host, port and path)
+				if strings.HasPrefix(a, "https://") {
+					return "\ttls off\n"
+				}
+				return ""
+			}
+			cf := fmt.Sprintf("%s {\n\theader / X-Site s%d\n\tstatus 204 /\n%s}\n%s {\n\theader / X-Site s%d\n\tstatus 204 /\n%s}\n", first, o, tlsOff(first), second, 1-o, tlsOff(second))
 			l, err := kit.Load(cf, "/nonexistent/Casketfile")
 			rep.Eval(1)
 			errs[o] = err
